@@ -120,11 +120,48 @@ def _conj(ctx, cmpop, A, B):
     return True if conj is None else conj
 
 
-def h_compare(ctx, cmpop, rkind, shape, D, P):
+def h_compare(ctx, cmpop, rkind, shape, D, P, rshape=None):
+    """rshape: shape of the right operand when it differs from the left one (NumPy broadcasting
+    of the zeroth coefficients, separately in every direction)"""
     algopy = symx.load_algopy()
     shape = tuple(shape)
     X = O.make_input(ctx, O.Arg('utpm', shape), 'x', D, P)
     x = mk_utpm(ctx, algopy, X)
+    if rshape is not None:
+        rshape = tuple(rshape)
+        if rkind == 'utpm':
+            Yv = O.make_input(ctx, O.Arg('utpm', rshape), 'y', D, P)
+            y = mk_utpm(ctx, algopy, Yv)
+            y0s = [Yv[0, p] for p in range(P)]
+        else:
+            Yv = O.make_input(ctx, O.Arg('ndarray', rshape), 'y', D, P)
+            y = mk_array(ctx, Yv)
+            y0s = [Yv for p in range(P)]
+        try:
+            got = CMP[cmpop](x, y)
+        except Exception as e:
+            ctx.fact(False, 'comparison of shapes %s and %s raised %s: %s' % (shape, rshape, type(e).__name__, str(e)[:80]))
+            return
+        ctx.fact(isinstance(got, (bool, np.bool_)), 'comparison returns a truth value (%s)' % type(got).__name__)
+        oshape = np.broadcast_shapes(shape, rshape)
+        conj = True
+        for p in range(P):
+            A = np.broadcast_to(np.asarray(X[0, p], dtype=object), oshape)
+            B = np.broadcast_to(np.asarray(y0s[p], dtype=object), oshape)
+            if ctx.mode == 'float':
+                conj = conj and bool(np.all(CMP[cmpop](np.array(A.tolist(), dtype=float), np.array(B.tolist(), dtype=float))))
+            else:
+                f = _conj(ctx, cmpop, A, B)
+                if f is False:
+                    conj = False
+                    break
+                if f is not True:
+                    conj = f if conj is True else (conj & f)
+        if ctx.mode == 'float' or conj is True or conj is False:
+            ctx.fact(bool(got) == bool(conj), 'x %s y == all over directions and broadcast elements' % cmpop)
+        else:
+            ctx.holds(conj if bool(got) else conj.negate(), 'x %s y == all(x0 %s y0) with broadcasting' % (cmpop, cmpop))
+        return
     if rkind == 'utpm':
         Yv = O.make_input(ctx, O.Arg('utpm', shape), 'y', D, P)
         y = mk_utpm(ctx, algopy, Yv)
@@ -144,6 +181,46 @@ def h_compare(ctx, cmpop, rkind, shape, D, P):
         ctx.fact(bool(got) == f, 'constant comparison')
     else:
         ctx.holds(f if bool(got) else f.negate(), 'x %s y == all(x0 %s y0) on this path' % (cmpop, cmpop))
+
+
+def h_plain_parity(ctx, what):
+    """plain (non-polynomial) arguments of unusual type: the algopy-level function returns exactly
+    what NumPy / SciPy returns.  Concrete data: decided on the float build."""
+    algopy = symx.load_algopy()
+    import scipy.special
+    if ctx.mode == 'sym':
+        ctx.fact(True, 'concrete plain arguments: decided on the float build')
+        ctx.eq(S.const(0), S.const(0), what)
+        return
+
+    def same(a, b, label):
+        a, b = np.asarray(a), np.asarray(b)
+        ctx.fact(a.shape == b.shape, '%s: shape %s == %s' % (label, a.shape, b.shape))
+        ctx.fact(a.dtype.kind == b.dtype.kind, '%s: dtype kind %s == %s' % (label, a.dtype.kind, b.dtype.kind))
+        if a.shape == b.shape and a.dtype.kind in 'fciub' and b.dtype.kind in 'fciub':
+            ctx.eq(a.astype(complex), b.astype(complex), label)
+    if what == 'integer arguments of special functions':
+        xi = np.array([1, 2, 3])
+        same(algopy.special.polygamma(1, 2), scipy.special.polygamma(1, 2), 'polygamma(1, 2)')
+        same(algopy.special.polygamma(1, xi), scipy.special.polygamma(1, xi), 'polygamma(1, int array)')
+        same(algopy.special.psi(xi), scipy.special.psi(xi), 'psi(int array)')
+        same(algopy.special.gammaln(xi), scipy.special.gammaln(xi), 'gammaln(int array)')
+        same(algopy.special.erf(xi), scipy.special.erf(xi), 'erf(int array)')
+        same(algopy.exp(xi), np.exp(xi), 'exp(int array)')
+        same(algopy.sqrt(4), np.sqrt(4), 'sqrt(4)')
+    elif what == 'zeros and ones with NumPy dtypes':
+        for dt in ('float64', 'f4', 'i4', complex, float, int, np.float32, None):
+            same(algopy.zeros(3, dtype=dt), np.zeros(3, dtype=dt), 'zeros(3, dtype=%r)' % (dt,))
+            same(algopy.ones((2, 2), dtype=dt), np.ones((2, 2), dtype=dt), 'ones((2, 2), dtype=%r)' % (dt,))
+    elif what == 'prod and sum of plain arrays':
+        a = np.array([[1.5, 2.0, -0.5], [3.0, 0.25, 2.0]])
+        same(algopy.prod(a[0]), np.prod(a[0]), 'prod(vector)')
+        same(algopy.sum(a), np.sum(a), 'sum')
+        same(algopy.sum(a, axis=1), np.sum(a, axis=1), 'sum(axis=1)')
+        same(algopy.diag(a, 1), np.diag(a, 1), 'diag(a, 1)')
+        same(algopy.diag(a[0], -1), np.diag(a[0], -1), 'diag(vector, -1)')
+    else:
+        raise KeyError(what)
 
 
 def h_branch(ctx, cmpop, D, P):
@@ -289,7 +366,11 @@ def units(tier, seed):
             for shape in ((), (2,), (2, 2)) if tier != 'quick' else ((), (2,)):
                 add('compare/x %s %s/%s' % (cmpop, rkind, shape), 'h_compare', cmpop=cmpop, rkind=rkind, shape=shape, D=2, P=1 if shape else 2)
         add('branch/x %s c' % cmpop, 'h_branch', cmpop=cmpop, D=2, P=2)
+        for (ls, rk, rs) in [((2,), 'utpm', ()), ((), 'utpm', (3,)), ((), 'ndarray', (3,)), ((1,), 'ndarray', (2, 1))]:
+            add('compare/x%s %s %s%s, broadcasting, P=2' % (ls, cmpop, rk, rs), 'h_compare', cmpop=cmpop, rkind=rk, shape=ls, D=2, P=2, rshape=rs)
     add('max/D2,P2,n3', 'h_max', D=2, P=2, n=3)
+    for what in ('integer arguments of special functions', 'zeros and ones with NumPy dtypes', 'prod and sum of plain arrays'):
+        add('plain arguments/%s' % what, 'h_plain_parity', what=what)
     for fn in ('maximum', 'minimum'):
         add('%s with tied zeroth coefficients/D3,P2' % fn, 'h_tie', fname=fn, D=3, P=2)
         add('%s(x, x)/D3,P2' % fn, 'h_tie', fname=fn, D=3, P=2, same_object=True)
